@@ -193,7 +193,7 @@ def cmd_replay(path):
 def _fresh_replay(path):
     """Replay in a fresh interpreter with another PYTHONHASHSEED; returns True iff it reproduces."""
     env = dict(os.environ, PYTHONHASHSEED="7")
-    p = subprocess.run([sys.executable, "-X", "faulthandler", "-m", "sim.main", "--replay", path],
+    p = subprocess.run([sys.executable, "-X", "faulthandler", "-m", "sim.entry", "--replay", path],
                        cwd=core.VERIF_DIR, env=env, capture_output=True, text=True, timeout=600)
     return p.returncode == 1 and "VIOLATION property=" in p.stdout, p.stdout[-2000:] + p.stderr[-2000:]
 
@@ -429,7 +429,7 @@ def cmd_selftest(pids, n):
         runs = []
         for hs, w, ck in (("0", 16, ""), ("7", 3, ""), ("0", 16, ""), ("0", 16, "1")):
             env = dict(os.environ, PYTHONHASHSEED=hs, VERIF_DIGEST_CHUNK=ck)
-            p = subprocess.run([sys.executable, "-X", "faulthandler", "-m", "sim.main", "--digests", pid, "--n", str(n), "--workers", str(w)],
+            p = subprocess.run([sys.executable, "-X", "faulthandler", "-m", "sim.entry", "--digests", pid, "--n", str(n), "--workers", str(w)],
                                cwd=core.VERIF_DIR, env=env, capture_output=True, text=True, timeout=3600)
             line = [ln for ln in p.stdout.splitlines() if ln.startswith("DIGESTS ")]
             if p.returncode != 0 or not line:
